@@ -31,6 +31,10 @@ pub struct Case {
     /// sequence number 2^64-1 (reached with the hook, then two real opens)
     #[serde(default)]
     pub last: bool,
+    /// > 0: substitution between two messages of one session whose sequence numbers differ by 2^distant (reached with
+    /// the hook): same plaintext, different aad; the body of one with tag and aad of the other must be rejected
+    #[serde(default)]
+    pub distant: u8,
 }
 
 pub struct C06;
@@ -70,6 +74,66 @@ struct Msg {
     ct: Vec<u8>, // body || tag
 }
 
+/// see `Case::distant`
+fn distant_case(out: &mut CaseOut, cfg: &Cfg, c: &Case) {
+    let ops = suite_ops(c.suite);
+    let k = keys(c.suite.kem, 6500 + c.distant as u64, cfg.seed);
+    let info = bytes(Fill::Mix, 12, 10, cfg.seed);
+    let m = mode_spec(c.mode, &k, b"", b"");
+    let nt = c.suite.aead.nt();
+    let (enc, refctx) = match r1_setup_s(c.suite, &m, &k.pk_r, &info, &k.ikm_e) {
+        Some(x) => x,
+        None => {
+            out.fail_machinery("R1 setup failed");
+            return;
+        }
+    };
+    let pt = bytes(Fill::Mix, 24, 61, cfg.seed);
+    for low in [0u64, 7, 255] {
+        let pa = low;
+        let pb = low + (1u64 << c.distant);
+        let (aad_a, aad_b) = (b"message at the low position".to_vec(), b"message at the distant position".to_vec());
+        let ct_a = refctx.seal_at(pa as u128, &aad_a, &pt);
+        let ct_b = refctx.seal_at(pb as u128, &aad_b, &pt);
+        // (receiver position, body from, tag from, aad, what)
+        let (body_a, tag_a) = ct_a.split_at(ct_a.len() - nt);
+        let (body_b, tag_b) = ct_b.split_at(ct_b.len() - nt);
+        let deliveries: Vec<(u64, &[u8], &[u8], &[u8], String)> = vec![
+            (pb, body_a, tag_b, &aad_b, format!("body of message {} with tag and aad of message {}", pa, pb)),
+            (pa, body_b, tag_a, &aad_a, format!("body of message {} with tag and aad of message {}", pb, pa)),
+            (pb, body_a, tag_a, &aad_a, format!("message {} replayed at position {}", pa, pb)),
+            (pa, body_b, tag_b, &aad_b, format!("message {} delivered at position {}", pb, pa)),
+            (pb, body_b, tag_b, &aad_a, format!("message {} with the aad of message {}", pb, pa)),
+        ];
+        for (at, body, tag, aad, what) in deliveries {
+            let mut r = match ops.setup_receiver(&m, &k.sk_r, &enc, &info).need("setup_receiver") {
+                Ok(r) => r,
+                Err(e) => {
+                    out.fail(e);
+                    return;
+                }
+            };
+            r.set_seq(at);
+            out.transitions += 1;
+            let got = match c.iface {
+                Iface::Open => r.open(&[body, tag].concat(), aad).map(|_| ()),
+                _ => {
+                    let mut b = body.to_vec();
+                    r.open_ip(&mut b, aad, tag)
+                }
+            };
+            if got != Obs::Err(hpke::HpkeError::OpenError) {
+                out.fail(format!("{:?} at receiver position {}: {} (positions differ by 2^{}): {} want Err(OpenError)", c.iface, at, what, c.distant, got.class()));
+            }
+            // non-vacuity: the genuine message of that position opens
+            let (gb, gt, ga) = if at == pa { (body_a, tag_a, &aad_a) } else { (body_b, tag_b, &aad_b) };
+            if r.open(&[gb, gt].concat(), ga) != Obs::Ok(pt.clone()) {
+                out.fail(format!("non-vacuity: the genuine message of position {} does not open after the rejected substitution", at));
+            }
+        }
+    }
+}
+
 impl Part for C06 {
     type Case = Case;
     fn name(&self) -> String {
@@ -107,11 +171,23 @@ impl Part for C06 {
                             if single && !t && suite.kem != crate::refmodel::Kem::X25519 {
                                 continue;
                             }
-                            v.push(Case { suite, mode, pos, shape, iface, last: false });
+                            v.push(Case { suite, mode, pos, shape, iface, last: false, distant: 0 });
                             if pos == 2 && !single && (shape % 4 == 0 || t) && mode == Mode::Base {
-                                v.push(Case { suite, mode, pos, shape, iface, last: true });
+                                v.push(Case { suite, mode, pos, shape, iface, last: true, distant: 0 });
                             }
                         }
+                    }
+                }
+            }
+        }
+        if crate::suites::HOOKS {
+            for suite in seal_suites() {
+                if suite.kdf != suite.kem.kdf() || !(t || matches!(suite.kem, crate::refmodel::Kem::X25519 | crate::refmodel::Kem::P256)) {
+                    continue;
+                }
+                for distant in [8u8, 16, 24, 32, 40, 48, 56, 60, 62, 63] {
+                    for iface in [Iface::Open, Iface::OpenInPlace] {
+                        v.push(Case { suite, mode: Mode::Base, pos: 0, shape: 0, iface, last: false, distant });
                     }
                 }
             }
@@ -121,7 +197,11 @@ impl Part for C06 {
     fn run(&self, cfg: &Cfg, c: &Case) -> CaseOut {
         let mut out = CaseOut::new();
         out.nontrivial = true;
-        out.outcome = format!("{:?}/{}{}", c.iface, c.suite.aead.name(), if c.last { "/last-seq" } else { "" });
+        out.outcome = format!("{:?}/{}{}{}", c.iface, c.suite.aead.name(), if c.last { "/last-seq" } else { "" }, if c.distant > 0 { "/distant-positions" } else { "" });
+        if c.distant > 0 {
+            distant_case(&mut out, cfg, c);
+            return out;
+        }
         let ops = suite_ops(c.suite);
         let k = keys(c.suite.kem, 6000 + c.shape as u64, cfg.seed);
         let info = bytes(Fill::Mix, 20, 10, cfg.seed);
